@@ -253,6 +253,102 @@ func c09Check(c *Ctx, a *c09Anim, stream string) {
 	}
 }
 
+// c09Ops runs a random history of NextFrame / Reset calls (incl. calls past the
+// end) and prints, per call, the snapshot or "-".
+func c09Ops(c *Ctx, a *c09Anim) {
+	rng := c.Rng.Fork()
+	an := a.build(rng)
+	n := rng.Range(1, 2*len(a.Frames)+3)
+	ops := make([]byte, n)
+	for i := range ops {
+		ops[i] = 'N'
+		if rng.Intn(4) == 0 {
+			ops[i] = 'R'
+		}
+	}
+	line := func() (line string) {
+		defer func() {
+			if r := recover(); r != nil {
+				line = fmt.Sprintf("PANIC %v", r)
+			}
+		}()
+		d, err := animation.NewAnimDecoder(an)
+		if err != nil {
+			return "ERR"
+		}
+		var parts []string
+		for _, o := range ops {
+			if o == 'R' {
+				d.Reset()
+				parts = append(parts, "-")
+				continue
+			}
+			s, _, err := d.NextFrame()
+			if err != nil || s == nil {
+				parts = append(parts, "-")
+			} else {
+				parts = append(parts, hex.EncodeToString(s.Pix))
+			}
+		}
+		return strings.Join(parts, ",")
+	}()
+	cl := a.caseLine()
+	c.Case("ops "+string(ops)+" "+strings.TrimPrefix(cl, "anim "), line)
+	c.D.Evaluations++
+	c.Count("stream:op-histories")
+	c.Nontrivial("ops:" + string(ops) + ":" + a.signature())
+	if strings.HasPrefix(line, "PANIC") {
+		c.Violate("panic", "AnimDecoder panicked in a NextFrame/Reset history: "+line, map[string]any{"anim": a, "ops": string(ops)})
+	}
+}
+
+// c09Exhaustive enumerates a small bounded domain completely: canvas 2x2, two
+// frames, every rectangle position/size in a window around the canvas, blend x
+// dispose, HasAlpha flags, alphas from {0,128,255} (uniform per frame).
+func c09Exhaustive(c *Ctx) {
+	alphas := []byte{0, 128, 255}
+	type rc struct{ x, y, w, h int }
+	var rects []rc
+	for x := -1; x <= 2; x++ {
+		for y := -1; y <= 2; y++ {
+			for w := 1; w <= 3; w++ {
+				for h := 1; h <= 3; h += 2 {
+					rects = append(rects, rc{x, y, w, h})
+				}
+			}
+		}
+	}
+	mk := func(r rc, a byte, bn, db, ha bool, seed int) c09Frame {
+		f := c09Frame{X: r.x, Y: r.y, W: r.w, H: r.h, BlendNone: bn, DispBG: db, HasAlpha: ha}
+		f.Pix = make([]byte, r.w*r.h*4)
+		for i := 0; i < r.w*r.h; i++ {
+			f.Pix[i*4], f.Pix[i*4+1], f.Pix[i*4+2], f.Pix[i*4+3] = byte(40*i+seed), byte(200-seed), byte(7*seed), a
+		}
+		return f
+	}
+	n := 0
+	for i1, r1 := range rects {
+		for _, r2 := range rects {
+			if (i1+n)%7 != 0 { // thin the rectangle pairs; flags below are complete
+				n++
+				continue
+			}
+			n++
+			for flags := 0; flags < 64; flags++ {
+				for _, a1 := range alphas {
+					for _, a2 := range alphas {
+						an := c09Anim{W: 2, H: 2, Frames: []c09Frame{
+							mk(r1, a1, flags&1 != 0, flags&2 != 0, flags&4 != 0, 1),
+							mk(r2, a2, flags&8 != 0, flags&16 != 0, flags&32 != 0, 2),
+							mk(rc{0, 1, 2, 1}, 128, false, false, true, 3)}}
+						c09Check(c, &an, "exhaustive-2x2")
+					}
+				}
+			}
+		}
+	}
+}
+
 func main() {
 	Main("c09", func(c *Ctx) {
 		c.D.Rule = "random animations (canvas 1..6 x 1..6, 1..6 frames, rectangles inside/overhanging/outside/overflowing, blend x dispose, alpha classes, three image placements) + 1x1 blend-kernel cases; non-trivial = >= 2 frames, distinct = distinct per-frame (full, overhang, blend, dispose, flag, placement) signature"
@@ -293,6 +389,12 @@ func main() {
 				stream = "arbitrary-flags"
 			}
 			c09Check(c, &a, stream)
+			if i%3 == 0 {
+				c09Ops(c, &a)
+			}
+		}
+		if c.Thorough() {
+			c09Exhaustive(c)
 		}
 		// blend kernel through 1x1 animations: dst written with BlendNone, src blended over it.
 		for i := 0; i < nb; i++ {
